@@ -166,7 +166,7 @@ theorem C05_section_item (orc : Oracle) (m : PM) (f : Frame) (rest : List Frame)
   have hchild_nc : child.cfg.flags.nocase = f.cfg.flags.nocase := by
     show (newInstance P o0).flags.nocase = _
     rw [newInstance_nocase, hPflags]
-  obtain ⟨ch', done, e3, hat3, hlev3, hbk3, hopts3, _, _, hv3, _⟩ :=
+  obtain ⟨ch', done, e3, hat3, hlev3, hbk3, _, hopts3, _, _, hv3, _⟩ :=
     flat_steps orc c.opts (mkSection P.info o0 none).opts body m2 child (F2 :: rest) [] hbody (hal _) hrun rfl
       ⟨rfl, rfl, by intro r' o' hr' _; cases hr'⟩
       (by show (newInstance P o0).opts = [] ++ _; rw [newInstance_opts]; rfl)
@@ -377,7 +377,7 @@ theorem C05_single_section_item (orc : Oracle) (m : PM) (f : Frame) (rest : List
     rw [setOpt_flags]
     have : ∀ (c : Cfg) (n : Nat), (c.setLine n).flags = c.flags := by intro c n; cases c; rfl
     rw [this, this]
-  obtain ⟨ch', done, e3, hat3, hlev3, hbk3, hopts3, _, _, hv3, _⟩ :=
+  obtain ⟨ch', done, e3, hat3, hlev3, hbk3, _, hopts3, _, _, hv3, _⟩ :=
     flat_steps orc c.opts s0.opts body m2 child (F2 :: rest) [] hbody hal hrun rfl
       ⟨rfl, rfl, by intro r' o' hr' _; cases hr'⟩
       (by show (enterInstance P s0).opts = [] ++ _; rw [enterInstance_opts]; rfl)
